@@ -15,10 +15,23 @@ from ._c05_reg import op
 S = gen.build_sptensor
 
 
-def sparse(tier, **kw):
+@st.composite
+def sparse(draw, tier, min_nnz=0, **kw):
+    """gen.sparse_case; with ``min_nnz`` the case is topped up (first free cells in F order, value 1) so that
+    operations that are known to raise on empty / single-entry operands (C02/C03 findings) are rarely starved."""
     kw.setdefault("max_cells", 36 if tier == "quick" else 120)
     kw.setdefault("patterns", ("none", "one", "some", "some", "all", "all"))
-    return gen.sparse_case(tier, **kw)
+    c = draw(gen.sparse_case(tier, **kw))
+    if min_nnz and len(c["subs"]) < min_nnz and draw(st.integers(0, 9)):
+        have = {tuple(s) for s in c["subs"]}
+        for s in ref.all_subs_F(c["shape"]):
+            if len(c["subs"]) >= min_nnz:
+                break
+            if tuple(s) not in have:
+                c["subs"].append(list(s))
+                c["vals"].append(1.0)
+        c["pattern"] = "topped-up"
+    return c
 
 
 def sp_labels(ctx, c):
@@ -115,7 +128,7 @@ _UNARY = {
 def _reg_unary(name, f):
     pats = ("one", "some", "all") if name.startswith("squash") else ("none", "one", "some", "all")
 
-    @op("sptensor/" + name, lambda tier: sparse(tier, min_order=1, patterns=pats))
+    @op("sptensor/" + name, lambda tier: sparse(tier, min_order=1, patterns=pats, min_nnz=1 if name.startswith("squash") else 0))
     def _(ctx, c, f=f):
         X = S(c)
         sp_labels(ctx, c)
@@ -141,7 +154,7 @@ def _(ctx, c):
 
 @st.composite
 def g_collapse(draw, tier):
-    c = draw(sparse(tier, min_order=1, patterns=("one", "some", "all", "all")))
+    c = draw(sparse(tier, min_order=1, min_nnz=2, patterns=("one", "some", "all", "all")))
     n = len(c["shape"])
     c["dims"] = draw(st.one_of(st.none(), gen.mode_subset(n, 1, n)))
     c["form"] = draw(st.sampled_from(["array", "list"] + (["int"] if c["dims"] and len(c["dims"]) == 1 else [])))
@@ -233,7 +246,7 @@ def _(ctx, c):
 
 @st.composite
 def g_mask(draw, tier):
-    c = draw(sparse(tier, min_order=1, patterns=("one", "some", "all", "all")))
+    c = draw(sparse(tier, min_order=1, min_nnz=2, patterns=("one", "some", "all", "all")))
     c["w"] = R.d_sparse_like(draw, c["shape"], "int")
     return c
 
@@ -410,7 +423,7 @@ def _(ctx, c):
 
 @st.composite
 def g_scale(draw, tier):
-    c = draw(sparse(tier, min_order=1, patterns=("some", "all", "all")))
+    c = draw(sparse(tier, min_order=1, min_nnz=2, patterns=("some", "all", "all")))
     n = len(c["shape"])
     c["fkind"] = draw(st.sampled_from(["ndarray", "tensor", "sptensor"]))
     dims = [draw(st.integers(0, n - 1))] if c["fkind"] == "ndarray" else sorted(draw(gen.mode_subset(n, 1, n)))
@@ -497,10 +510,10 @@ def _(ctx, c):
 # --------------------------------------------------------------------------
 
 
-def g_with_other(kinds, same_object=True, patterns=("none", "one", "some", "all")):
+def g_with_other(kinds, same_object=True, patterns=("none", "one", "some", "all"), min_nnz=0):
     @st.composite
     def g(draw, tier):
-        c = draw(sparse(tier, min_order=1, max_order=3, patterns=patterns))
+        c = draw(sparse(tier, min_order=1, max_order=3, patterns=patterns, min_nnz=min_nnz))
         ks = list(kinds) + (["same-object"] if same_object else [])
         c["okind"] = draw(st.sampled_from(ks))
         if c["okind"] == "scalar":
@@ -513,7 +526,9 @@ def g_with_other(kinds, same_object=True, patterns=("none", "one", "some", "all"
 
 
 def _reg_binary(name, f, kinds, quick=40, same_object=True, patterns=("none", "one", "some", "all")):
-    @op("sptensor/" + name, g_with_other(kinds, same_object=same_object, patterns=patterns), quick=quick)
+    min_nnz = 2 if "none" not in patterns or name == "innerprod" else 0
+
+    @op("sptensor/" + name, g_with_other(kinds, same_object=same_object, patterns=patterns, min_nnz=min_nnz), quick=quick)
     def _(ctx, c, f=f):
         X = S(c)
         sp_labels(ctx, c)
@@ -570,7 +585,7 @@ def g_getitem(draw, tier):
     return c
 
 
-@op("sptensor/getitem", g_getitem, quick=120, thorough=4000)
+@op("sptensor/getitem", g_getitem, quick=120, thorough=2500)
 def _(ctx, c):
     X = S(c)
     sp_labels(ctx, c)
@@ -642,7 +657,7 @@ def _region_covers_all_stored(c):
 R.pred("setitem_region_covers_all_stored")(_region_covers_all_stored)
 
 
-@op("sptensor/setitem", g_setitem, quick=160, thorough=5000, inplace="self")
+@op("sptensor/setitem", g_setitem, quick=160, thorough=3000, inplace="self")
 def _(ctx, c):
     X = S(c)
     sp_labels(ctx, c)
